@@ -38,14 +38,19 @@ type Node struct {
 	Min         int   `json:"min,omitempty"`         // replica minWritesForSuccess
 	NRead       int   `json:"nread,omitempty"`       // replica: first NRead kids are readBackends (0 = default)
 	CacheBytes  int64 `json:"cacheBytes,omitempty"`  // proxycache maxCacheBytes / memory cache size
-	NoRemove    bool  `json:"noRemove,omitempty"`    // sim leaf without remove / cond without remove target / overlay without deleted
-	ReadOnlyKid int   `json:"-"`
+	// ReadKids (replica): explicit readBackends; may share nodes with Kids.
+	ReadKids    []*Node `json:"readKids,omitempty"`
+	NoRemove    bool    `json:"noRemove,omitempty"` // sim leaf without remove / cond without remove target / overlay without deleted
+	ReadOnlyKid int     `json:"-"`
 }
 
 // Walk visits n and all descendants.
 func (n *Node) Walk(f func(*Node)) {
 	f(n)
 	for _, k := range n.Kids {
+		k.Walk(f)
+	}
+	for _, k := range n.ReadKids {
 		k.Walk(f)
 	}
 }
@@ -281,6 +286,13 @@ func (w *World) construct(n *Node, g *Gen) (blobserver.Storage, error) {
 		}
 		if n.NRead > 0 {
 			conf["readBackends"] = all[:n.NRead]
+		}
+		if len(n.ReadKids) > 0 {
+			var rd []any
+			for _, k := range n.ReadKids {
+				rd = append(rd, prefixOf(k.Name))
+			}
+			conf["readBackends"] = rd
 		}
 		return blobserver.CreateStorage("replica", w, conf)
 	case "shard":
